@@ -124,6 +124,7 @@ def obligations(ctx):
         ob.fail("no path returns a proposal")
     ob.finish(E)
     utxo_stat_totals(ctx)
+    witness_size_tracking(ctx)
 
 
 def utxo_stat_totals(ctx):
@@ -182,3 +183,58 @@ def utxo_stat_totals(ctx):
             ob.fail("no Ok path for %s" % holders)
         agg.stats["paths"] += E.stats["paths"]; agg.stats["feasibility_queries"] += E.stats["feasibility_queries"]; agg.stats["functions"] |= E.stats["functions"]
     ob.finish(agg, lambda m, info=None: ("e2n_c13_send_all", []))
+
+
+# ---------------------------------------------------------------- the running witness-set size is the size of the witness set
+def witness_size_tracking(ctx):
+    """One inductive step of WitnessesCalculator: from an arbitrary state whose tracked size is the CBOR size of a witness set
+    with n key witnesses (n: all of 0..2^50) and an arbitrary bootstrap part,
+        total == [a field in use] W(fields) + [n > 0](3 + head(n) + 101 n) + bootstrap part,
+    add_vkey re-establishes it for n + 1 (the array header grows exactly when head(n + 1) > head(n): n = 23, 255, ...).
+    W = the map header and keys, an uninterpreted function of which fields are in use; 101 = size of one mock key witness
+    (its conformance is C06/C18's sized transaction); the wrapped-set header is executed (3 + head, see the kernel obligation)."""
+    P = ctx.P
+    ob = Obligation(ctx, "c13_e2_witness_size_tracks_key_count", "n key witnesses already counted: all of 0..2^50; bootstrap part arbitrary; fields in use: consistent with the counts",
+                    ["WitnessesCalculator::add_vkey", "CborCalculator::get_wrapped_struct_size", "CborCalculator::get_fake_vkey_size"], fallback_native="e2n_c13_send_all")
+    E = Engine(P)
+    n = E.sym_int("n", "u64")
+    B = E.sym_int("bootstrap_part", "usize")
+    has_boot = z3.Bool("bootstraps_in_use")
+    E.assume(n.t < (1 << 50)); E.assume(B.t < (1 << 40)); E.assume(z3.Implies(z3.Not(has_boot), B.t == 0))
+    W = z3.Function("witness_set_header", z3.BoolSort(), z3.BoolSort(), z3.IntSort())
+    for v_ in (True, False):
+        for b_ in (True, False):
+            E.assume(z3.And(W(z3.BoolVal(v_), z3.BoolVal(b_)) >= 1, W(z3.BoolVal(v_), z3.BoolVal(b_)) <= 20))
+    E.assume(E.as_u(VEnum("WitnessSetNames", "Vkeys", [])) != E.as_u(VEnum("WitnessSetNames", "Bootstraps", [])))      # distinct unit variants
+    def wsize(E_, c, args):
+        s = VM.deref(E_, args[0])
+        names = {x.variant for x in (VM.deref(E_, i) for i in s.items)}
+        w = W(z3.BoolVal("Vkeys" in names), z3.BoolVal("Bootstraps" in names))
+        E_.pc.append(z3.And(w >= 1, w <= 20))
+        return VInt(w, "usize")
+    E.extra_intrinsics[r"CborCalculator::get_witnesses_set_struct_size$"] = wsize
+    def expected(k, v, b):
+        return z3.If(z3.Or(v, b), W(v, b), 0) + z3.If(k > 0, 3 + head(k) + 101 * k, 0) + B.t      # no field in use: nothing counted yet
+    def mk():
+        some = E.choose([n.t > 0, n.t == 0], "keys counted")
+        boot = E.choose([has_boot, z3.Not(has_boot)], "bootstraps in use")
+        fields = ([VEnum("WitnessSetNames", "Vkeys", [])] if some == 0 else []) + ([VEnum("WitnessSetNames", "Bootstraps", [])] if boot == 0 else [])
+        st = E.mk_struct("WitnessesCalculator", vkeys_count=n, boostrap_count=VLazy("boot_count", "u64"), used_fields=VSeq(fields, "hset"),
+                         total_size=VInt(expected(n.t, z3.BoolVal(some == 0), z3.BoolVal(boot == 0)), "usize"))
+        return [R(st, "self")]
+    names = P.struct_fields["WitnessesCalculator"]
+    nret = 0
+    for o in E.explore("WitnessesCalculator::add_vkey", mk, max_paths=600):
+        if o.kind != "return":
+            ob.vc("no panic in add_vkey (%s %s)" % (o.kind, o.msg[:60]), o.pc, z3.BoolVal(False)); continue
+        nret += 1
+        E.enter(o)
+        st = VM.deref(E, o.args[0])
+        cnt = VM.deref(E, st.fields[names.index("vkeys_count")]).t
+        tot = VM.deref(E, st.fields[names.index("total_size")]).t
+        fl = {x.variant for x in (VM.deref(E, i) for i in VM.deref(E, st.fields[names.index("used_fields")]).items)}
+        ob.vc("the count goes up by one and the key-witness field is in use", o.pc, z3.And(cnt == n.t + 1, z3.BoolVal("Vkeys" in fl)))
+        ob.vc("tracked size == header + 3 + head(n+1) + 101 (n+1) + bootstrap part", o.pc, tot == expected(n.t + 1, z3.BoolVal(True), z3.BoolVal("Bootstraps" in fl)), info=dict())
+    if nret < 2:
+        ob.fail("expected paths with and without keys counted before, saw %d" % nret)
+    ob.finish(E)
